@@ -25,6 +25,12 @@ def templates(ctx):
           ('date', [b'a == 2021-', k]), ('time', [b'a == 12:', k]), ('ref', [b'a == @x ', k]), ('bool', [b'a == t', k]),
           ('dt', [b'a == 2021-03-04T05:06:07Z', k]), ('nonascii', ['a == "é"'.encode(), k]), ('op-noarg', [b'a and and', k]),
           ('close', [b'a)', k]), ('deep', [b'((((a))))', k])]
+    # non-ASCII characters where a token is expected or right behind the last token (error paths that touch the text)
+    U = ['é', 'ß', 'ø', '\u20ac', '\U0001F600']
+    for i, (nm, pre) in enumerate([('u-start', ''), ('u-cmp', 'a == '), ('u-and', 'site and '), ('u-lt', 'a <'), ('u-not', 'not '), ('u-path', 'a->'),
+                                   ('u-paren', '(a and '), ('u-after', 'a == 1 '), ('u-weq', 'a *== @x '), ('u-or', 'a or ')]):
+        T.append({'name': 'sk-' + nm, 'parts': [(pre + U[i % len(U)]).encode('utf-8'), 1]})
+        if not q: T.append({'name': 'sk-' + nm + '2', 'parts': [(pre + U[(i + 2) % len(U)]).encode('utf-8'), 1]})
     for name, parts in sk:
         T.append({'name': 'sk-' + name, 'parts': parts})
     return T
